@@ -176,7 +176,9 @@ CHECKS.update({
         "Hypothesis-generated expressions/forms (full grammar incl. derivatives, variables, restrictions) and mappings of "
         "1-3 coefficients/constants/arguments/x to terminals or generated expressions (swaps and self-referential images "
         "included): the value of replace(e, m) must equal the value of e with simultaneously substituted terminals; "
-        "shape-changing mappings must raise; mappings that hit nothing must return an equal expression.",
+        "shape-changing mappings must raise; mappings that hit nothing must return an equal expression; the same recipe "
+        "rebuilt with a mapped coefficient exchanged for an ExternalOperator / Interpolate key (image as drawn or zero) "
+        "must lose the operator and have the substituted value.",
         "Trusts the interpreter's substitution environment (images evaluated without substitution).",
         "4/C21",
     ),
